@@ -41,7 +41,7 @@ def build(U):
 
     # ---- Option<T> ------------------------------------------------------------------------------
     im = U.impl('main/src/typed_node.rs', "TypedNode<'i, R> for Option<T>").drop_attrs()
-    im.prepend_in_block("    open spec fn sem(c: Ctx<'i>, pos: nat, st: Seq<Span<'i>>) -> Res<'i> { sem_opt::<R, T>(c, pos, st) }")
+    im.prepend_in_block(P.semdef("sem_opt::<R, T>(c, pos, st)", "match n { Some(x) => T::sem(c, pos, st) is Some && T::node_ok(c, pos, st, end, x), None => T::sem(c, pos, st) is None }"))
     im.closure(1, params=P.STACK_PARAM, contract=P.cl_parse('T'), fname='try_parse_partial_with')
     im.closure(1, params=P.STACK_PARAM, contract=P.cl_check('T'), fname='try_check_partial_with')
     P.hints(im)
@@ -49,14 +49,14 @@ def build(U):
 
     # ---- (T1, T2) -------------------------------------------------------------------------------
     im = U.impl('main/src/typed_node.rs', "TypedNode<'i, R> for (T1, T2)").drop_attrs()
-    im.prepend_in_block("    open spec fn sem(c: Ctx<'i>, pos: nat, st: Seq<Span<'i>>) -> Res<'i> { sem_pair::<R, T1, T2>(c, pos, st) }")
+    im.prepend_in_block(P.semdef("sem_pair::<R, T1, T2>(c, pos, st)"))
     P.hints(im)
     U.emit(im)
 
     # ---- [T; N], check path (the parse path builds a Vec and converts: see unit comb_arr) ---------
     im = U.impl('main/src/typed_node.rs', "TypedNode<'i, R> for [T; N]").drop_attrs()
     im.rw('R3', 'vec.try_into()', 'shim_vec_try_into_array::<T, N>(vec)')
-    im.prepend_in_block("    open spec fn sem(c: Ctx<'i>, pos: nat, st: Seq<Span<'i>>) -> Res<'i> { sem_times::<R, T>(c, N as nat, pos, st) }")
+    im.prepend_in_block(P.semdef("sem_times::<R, T>(c, N as nat, pos, st)"))
     INV = """            invariant
                 inv(input), input.ctx() == input0.ctx(), input.off() >= input0.off(),
                 stack@.snaps == old(stack)@.snaps, stack_all_wf(stack@),
